@@ -198,7 +198,8 @@ def _install(sim):
     # oqupy.util seams, whichever way the module spells them
     for nm, repl in (("Timer", simsched.SimTimer), ("Lock", simsched.SimLock),
                      ("RLock", simsched.SimRLock),
-                     ("Event", simsched.SimEvent)):
+                     ("Event", simsched.SimEvent),
+                     ("Thread", simsched.SimThread)):
         if hasattr(U, nm):
             setattr(U, nm, repl)
     if isinstance(getattr(U, "threading", None), types.ModuleType):
@@ -209,10 +210,12 @@ def _install(sim):
         shim.time = sim.clock
         shim.monotonic = sim.clock
         shim.perf_counter = sim.clock
-        shim.sleep = lambda s: sim.advance(int(s * 1000))
+        shim.sleep = lambda s: sim.wait_until(lambda: False, s, "time.sleep")
         U.time = shim
     else:
         U.time = sim.clock
+    if callable(getattr(U, "sleep", None)):
+        U.sleep = lambda s: sim.wait_until(lambda: False, s, "time.sleep")
     simexec.install_executors(B)
     env.stream = simsched.RecordingStream(sim)
     env.real_stdout = sys.stdout
@@ -738,7 +741,8 @@ def _quiescence_oracle(sim, env, case, ci):
                             "callback (it would never return)"})
         return v
     stuck = sim.drain()
-    if sim.deadlock or stuck:
+    sleeping = [r for r in stuck if sim.deadlines.get(r) is not None]
+    if sim.deadlock or [r for r in stuck if r not in sleeping]:
         v.append({"class": "deadlock", "signature": sig_base,
                   "detail": "threads blocked for ever: %s" % stuck})
         return v
@@ -746,6 +750,20 @@ def _quiescence_oracle(sim, env, case, ci):
     writes_before = sim.writes_after_end
     fired = sim.run_horizon(HORIZON_MS)
     still = list(sim.timers)
+    if sleeping:
+        alive = [r for r in sim.runnable if r != MAIN]
+        v.append({
+            "class": "thread_alive_after_call",
+            "signature": sig_base + ("/still-running" if alive else
+                                     "/lingering"),
+            "detail": "helper thread(s) %s were still alive (sleeping) when "
+                      "the call had ended; after %d ms %s; %d writes to the "
+                      "stream after the call" % (
+                          sleeping, HORIZON_MS,
+                          "still alive: %s" % alive if alive
+                          else "they had exited",
+                          sim.writes_after_end - writes_before)})
+        return v
     if pending:
         forever = bool(still) or fired > 1
         v.append({
